@@ -187,3 +187,34 @@ PLANS["C03"] = {
                 need("stmt:resolve-late", 1000), need("stmt:stack-only-slice-then-mutate", 1000), need("stmt:mutate-top-of-stack", 1000),
                 need("op:step", 10000), need("capi_snapshots", 1000), need("copies_dropped", 5000)],
 }
+
+PLANS["C14"] = {
+    "hang_is_violation": "every execution in this monitor runs under an instruction limit or is stepped with the monitor's own bounded "
+                         "counter, so a case that is still executing after 40 CPU-seconds executed far more instructions than any limit "
+                         "that was set",
+    "jobs": {
+        "quick": [("", "release", 150000), ("", "dev", 15000)],
+        "thorough": [("", "release", 6000000), ("", "dev", 600000)],
+    },
+    "rule": "five case kinds by index: (insn) a compiled G1/G2/growth program is stepped with the monitor's own counter under every "
+            "instruction limit 0..24 plus the boundary values around the unconstrained twin's need and random ones, and run() under the "
+            "same limits: never more than N successful steps, the meter never above N, the state run() stops in must be reached by the "
+            "stepped twin within N instructions, exact need is accepted, need-1 refused, a further step after the error makes no progress, "
+            "and after raising the limit run() reaches the twin's final observation; (stack) the same sweep for the stack limit with the "
+            "dump hook read after every step, with 0..3 items already on the stack; (stack-shift) growth programs (unbox, collect, "
+            "recursion, loops, foreach, meta blocks, locals) through eval or compile+run: the smallest sufficient limit is found on an "
+            "empty stack and must move by exactly d when d items are already there; (heap) var / let / defvar under every heap limit "
+            "around cells-in-use and need, on heaps with 0..3 extra cells, incl. limits below current usage; (session) limits changed "
+            "between evaluations with all three invariants checked after every step. distinct = distinct (kind, program)",
+    "assumptions": ["a stack limit only refuses pushes: items that were on the stack when a lower limit is set stay",
+                    "recovery after a heap-limit error raised at build time is probed through the host API (defvar); how later "
+                    "sources behave after a refused build is C10's subject",
+                    "the instruction meter may charge a late-bound word's first execution twice; exact-need is taken from the twin's meter"],
+    "require": [need("insn:limits_swept_step", 200000), need("insn:boundary_fail_confirmed", 100000), need("insn:boundary_ok_confirmed", 10000),
+                need("insn:recoveries", 100000), need("insn:run_stop_states_located", 100000), need("stack:steps_checked", 1000000),
+                need("stack:boundary_fail_confirmed", 50000), need("stack:boundary_ok_confirmed", 10000), need("stack:recoveries", 50000),
+                need("shift:boundary_ok_confirmed", 20000), need("shift:boundary_fail_confirmed", 20000),
+                need("heap:boundary_fail_confirmed", 50000), need("heap:boundary_ok_confirmed", 10000), need("heap:api_sequences", 50000),
+                need("heap:recoveries", 50000), need("session:steps_checked", 500000), need_set("growth_paths", 13),
+                need_set("heap_growth_paths", 7), need_set("stack_limit_fired_in", 12), need_set("insn_limit_fired_at", 12)],
+}
